@@ -1,6 +1,6 @@
 (* C19 -- the fault-log view.  Statements only. *)
 From Coq Require Import ZArith List Bool Lia.
-From RV Require Import GenConsts M_Faultlog P_Faultlog P_FaultlogDepth.
+From RV Require Import GenConsts M_Faultlog P_Faultlog P_FaultlogDepth P_FaultlogClean.
 Import ListNotations.
 Open Scope Z_scope.
 
@@ -45,6 +45,29 @@ Proof. exact view_within_log. Qed.
 Theorem C19_announcement_at_full_depth : forall l d, (forall v, In v l -> v < d) ->
   insert_into_map (pmap 0 l) 0 (Some d) = pmap 0 (firstn (Z.to_nat LOG_DEPTH) (d :: l)).
 Proof. exact announce_at_full_depth. Qed.
+
+(* ---- the positive clauses at full strength, for every history without loss: controller (log of at
+   most 64 entries, newest first) and library driven together; KNew d = a new entry arrives and its
+   announcement is delivered, KRead i = the reply for index i (the entry, or "no entry") is delivered,
+   with i not beyond the position already reached.  Whatever the interleaving -- re-reads, partial and
+   complete read-throughs, entries arriving between reads, the log filling up and entries dropping
+   off its end -- the view is exactly the controller's log down to the position reached ---- *)
+Theorem C19_clean_histories_track : forall ops st', krun ops kinit = Some st' ->
+  fl_map (k_s st') = pmap 0 (firstn (k_n st') (k_log st')) /\ (k_n st' <= length (k_log st') <= DEPTH)%nat.
+Proof. exact clean_histories_track. Qed.
+
+(* ... and reading on from the position reached to the end of the log reaches the whole log: after a
+   complete read-through the view EQUALS the controller's log *)
+Theorem C19_read_through_completes : forall k st, tracks st -> (k_n st + k = length (k_log st))%nat ->
+  (length (k_log st) < DEPTH)%nat ->
+  exists st', krun (map KRead (seq (k_n st) (S k))) st = Some st' /\ k_log st' = k_log st /\ k_n st' = length (k_log st).
+Proof. exact read_through_depth. Qed.
+
+Theorem C19_clean_history_example :
+  option_map (fun st => (k_log st, fl_map (k_s st), k_n st))
+    (krun [KNew 1; KNew 2; KRead 0; KRead 1; KRead 2; KNew 3; KRead 1; KNew 4; KRead 3; KRead 4] kinit)
+  = Some ([4; 3; 2; 1], [(0, 4); (1, 3); (2, 2); (3, 1)], 4%nat).
+Proof. exact clean_history_example. Qed.
 
 (* the full statements are false of the code (witnesses replayed on the implementation) *)
 Theorem C19_no_duplicates_refuted : exists ops, no_dup_values (fl_map (snd (crun ops))) = false.
